@@ -3,6 +3,7 @@
 use crate::{
     compile::{Compile, CompileState},
     context::compile_context,
+    rename::make_binders_distinct,
     types::compile_ty,
 };
 use core_lang::syntax::{CodataDeclaration, names::Identifier};
@@ -29,6 +30,9 @@ pub fn compile_def(
     codata_types: &'_ [CodataDeclaration],
     used_labels: &mut HashSet<Name>,
 ) -> VecDeque<core_lang::syntax::Def> {
+    // continuations are placed beneath binders, so no binder must shadow another one
+    let def = make_binders_distinct(def);
+
     let mut used_vars = def.context.vars();
 
     let mut context = compile_context(def.context);
@@ -90,6 +94,9 @@ pub fn compile_main(
     codata_types: &'_ [CodataDeclaration],
     used_labels: &mut HashSet<Name>,
 ) -> VecDeque<core_lang::syntax::Def> {
+    // continuations are placed beneath binders, so no binder must shadow another one
+    let def = make_binders_distinct(def);
+
     let mut used_vars = def.context.vars();
     let context = compile_context(def.context);
 
